@@ -74,7 +74,7 @@ def _atom(r):
     if k == 1:
         return rm.comp(ids=[r.choice(['i1', 'i2'])])
     if k == 2:
-        return rm.comp(classes=r.sample(['k', 'm'], r.choice([1, 1, 2])))
+        return rm.comp(classes=[r.choice(['k', 'm']) for _ in range(r.choice([1, 1, 2, 2, 3]))])
     if k == 3:
         op = r.choice(OPS)
         flag = r.choice([None, None, 'i', 's']) if op else None
@@ -133,6 +133,9 @@ def ast_pool(n, seed=0, depth=2):
         [[rm.comp(pseudos=[('has', [('>', [rm.comp(tag='*')])])])]],
         [[rm.comp(pseudos=[('root',)]), ('>', rm.comp(tag='*'))]],
         [[rm.comp(pseudos=[('not', [[rm.comp(pseudos=[('root',)])]])])]],
+        [[rm.comp(classes=['k', 'k'])]], [[rm.comp(classes=['k', 'm', 'k'])]],
+        [[rm.comp(pseudos=[('not', [[rm.comp(classes=['m', 'm'])]])])]],
+        [[rm.comp(pseudos=[('empty',)])]], [[rm.comp(pseudos=[('not', [[rm.comp(pseudos=[('empty',)])]])])]],
     ]
     out = list(fixed)
     while len(out) < n + len(fixed):
